@@ -464,8 +464,47 @@ def dir2(chk, cases, rres, rfaults, res, faults, leaky):
 
 # ---------------------------------------------------------------------------------------
 
+def run_replay(chk, binary, path):
+    """Re-execute one stored failing case (replays/C10/*.json) against the current /repo."""
+    import json
+    rep = json.load(open(path))
+    case, sig = rep["case"], rep["signature"]
+    if "desc" in case and "block" in case:          # compressor direction: re-compress, re-validate with TLC
+        fmt = case["fmt"]
+        res, faults, _ = cl.run_parallel(binary, ["r0 rec %s 0 %s" % (fmt, case["desc"])])
+        if faults or "r0" not in res or res["r0"][0] != "0":
+            chk.violation(sig, "replay: %s compress of %s fails again" % (fmt, case["desc"]), case)
+            return
+        verd, rs = validate(fmt, [("r0", res["r0"][1], res["r0"][2])], "replay")
+        chk.add_tlc(rs[0])
+        chk.count(case["desc"])
+        if verd["r0"]["v"] != "ok":
+            chk.violation(sig, "replay: %s compress of %s -> %s: %s" % (fmt, case["desc"], res["r0"][2][:200], verd["r0"]), case)
+        return
+    fmt, stream, cap = case["fmt"], case["stream"], case["cap"]
+    stream = stream if stream[:1] in ("h", "f", "-") else "h" + stream
+    lines = ["d0 dec %s %d %s" % (fmt, cap, stream)]
+    if "expect" in case:
+        lines.append("e0 exp %s" % case["expect"])
+    res, faults, leaky = cl.run_parallel(binary, lines)
+    chk.count((fmt, stream, cap))
+    got = res.get("d0")
+    if faults or leaky or got is None:
+        chk.violation(sig, "replay: fault again on %s" % stream[:200], case)
+    elif "expect" in case:     # the spec's expected output was stored with the case
+        if got[0] != "0" or got[1:] != res["e0"]:
+            chk.violation(sig, "replay: %s decompress of %s gives %s, spec expects %s" % (fmt, stream[:200], got[:2], res["e0"][:1]), case)
+    elif "spec" in case and case["spec"]["exp"] == "accept":
+        if got[0] != "0" or got[2] != common.hexs(case["spec"]["out"]):
+            chk.violation(sig, "replay: %s decompress of %s gives %s" % (fmt, stream[:200], got), case)
+    elif got[0] == "0" and not ("spec" in case and case["spec"]["exp"] in ("lenient", "open")):
+        chk.violation(sig, "replay: %s decompress still accepts the invalid block %s" % (fmt, stream[:200]), case)
+
+
 def run(chk, tier, replay):
     binary = common.build_harness("h_codec")
+    if replay:
+        return run_replay(chk, binary, replay)
     refbin = common.build_harness("h_codec", extra=cl.REF_EXTRA)
     chk.assumptions += [
         "TLC executes spec/fmt/Snappy.tla and spec/fmt/Lz4.tla (transcribed from format_description.txt and lz4_Block_format.md); "
